@@ -205,3 +205,70 @@ func VisitBad(nodes []interface{}, seen map[string]bool) string {
 	})
 	return cur.Name
 }
+
+// ---- E2: a slice bound that is the plain result of a substring search
+
+func PkgOfBad(name string) string { return name[:strings.LastIndex(name, ".")] }
+
+func PkgOfGood(name string) string {
+	if i := strings.LastIndex(name, "."); i >= 0 {
+		return name[:i]
+	}
+	return ""
+}
+
+// ---- E7: a list-valued tree field read at a fixed position
+
+type Ident struct{ Name string }
+type Decl struct{ Names []*Ident }
+
+func FirstNameBad(d *Decl) string {
+	if len(d.Names) < 1 {
+		return ""
+	}
+	return d.Names[0].Name
+}
+
+func AllNamesGood(d *Decl) []string {
+	var out []string
+	for _, n := range d.Names {
+		out = append(out, n.Name)
+	}
+	return out
+}
+
+// ---- E5: an argument whose elements are overwritten before the call; an assumption about the input
+
+func useExts(exts []string) int { return len(exts) }
+
+func ExtsBad(list string) int {
+	exts := strings.Split(list, ",")
+	for i := range exts {
+		exts[i] = strings.ToLower(exts[i])
+	}
+	return useExts(exts)
+}
+
+func ExtsGood(list string) int { return useExts(strings.Split(list, ",")) }
+
+func isMarker(s string) bool { return strings.HasPrefix(s, "TODO") }
+
+// the caller guarantees that t starts with "//" or "#"
+func AfterMarkerGood(t string) bool {
+	if strings.HasPrefix(t, "//") {
+		t = t[2:]
+	} else if strings.HasPrefix(t, "#") {
+		t = t[1:]
+	}
+	return isMarker(t)
+}
+
+func AfterMarkerBad(t string) bool {
+	if strings.HasPrefix(t, "//") {
+		t = t[2:]
+	}
+	if strings.HasPrefix(t, "#") {
+		t = t[1:]
+	}
+	return isMarker(t)
+}
